@@ -13,7 +13,8 @@ RULE = ('a dedicated generator: command name outside the fixed-signature table (
         'math environments, a definition body). Exhaustive: every separator at every position of every run shape <=2+2 in '
         'every context with all other separators empty; random beyond. Second generator: unpartnered [ and ] as plain text '
         'in every context. Oracle: find(name).args has exactly the kinds and texts of the groups before the first '
-        'detaching separator, and str(soup) equals the source with only the attaching separators inside that run removed. '
+        'detaching separator, and str(soup) equals the source with only the attaching separators inside that run removed; '
+        'in both tolerance modes. '
         'Non-trivial = >=2 groups with a non-empty attaching separator, a detaching separator at an interior position, or '
         'a body with a foreign delimiter; distinct by source')
 ASSUMPTIONS = [
@@ -22,9 +23,10 @@ ASSUMPTIONS = [
 
 NAMES = ['tgt', 'tgt*', 'foo', 'section*', 'textbf*', 'cup*', 'labelx', 'Section', 'defs', 'inn', 'noindent*', 'leftx']
 ATTACH = ['', ' ', '  ', '\t', '\n', ' \n', '\n ', ' \t\n\t ']
-DETACH = ['\n\n', ' \n\n', '\n \n', '\n\n ', ' \n\t\n ', '.', ';', '%c\n', '\\\\', '\\%', '~', '\n\n\n']
+DETACH = ['\n\n', ' \n\n', '\n \n', '\n\n ', ' \n\t\n ', '.', ';', '%c\n', '\\\\', '\\%', '~', '\n\n\n',
+          '@', '!', ':', ',', '+', '-', '=', '/', '|', '<', '>', '(', ')', '&', '#', '^', '_', '"', "'", '?', '1']
 BRACE_BODIES = ['a', '', ']', '[', '][', '(', 'a]b', '\\y{z}', '\\y[z]', '{]}', ' ', '$x$', 'x\n\ny', '[a]', '\\y{[}', 'a b']
-BRACKET_BODIES = ['a', '', '{]}', '(', '\\y{]}', '{[}', '$]$', '[', 'k=v', ' ', '\\y[z]']
+BRACKET_BODIES = ['a', '', '{]}', '(', '\\y{]}', '{[}', '$]$', '[', 'k=v', ' ', '\\y[z]', 'a}b']
 TRAILS = ['', ' tail', '.', '\n\ntail', ';x', ' ']
 
 # (prefix, suffix, allows_detached_brackets)
@@ -69,10 +71,10 @@ def build(name, groups, seps, trail, ctx):
     return pre + src + suf, attached, pre + out + suf
 
 
-def check_case(name, groups, seps, trail, ctx, sub='random'):
+def check_case(name, groups, seps, trail, ctx, sub='random', tolerance=0):
     src, want, out = build(name, groups, seps, trail, ctx)
-    case = {'src': src, 'sub': sub, 'name': name, 'expected_args': want, 'expected_out': out}
-    o = T.outcome(src, 0)
+    case = {'src': src, 'sub': sub, 'name': name, 'expected_args': want, 'expected_out': out, 'tolerance': tolerance}
+    o = T.outcome(src, tolerance)
     if o[0] != 'ok':
         raise H.Violation('C09:parse:%s' % o[1], case, 'input does not parse: %r' % (o[2] if o[0] == 'leak' else o[1],))
     soup = o[1]
@@ -147,14 +149,34 @@ def shard_exhaustive(ctx, shard):
                         for name in (NAMES[0], NAMES[3 + (count // nshard) % (len(NAMES) - 3)]):
                             total += 1
                             try:
-                                case = check_case(name, groups, seps, ' t', cx, 'exhaustive')
+                                case = check_case(name, groups, seps, ' t', cx, 'exhaustive', tolerance=total % 2)
                             except H.Violation as v:
                                 if v.kind not in seen:
                                     seen.add(v.kind)
                                     res.violations.append(v.record())
                                 continue
                             res.case(case['src'], True, sample=case['src'], classes=['ex:' + cx[0]] + nontrivial(groups, seps))
-    res.exhaustive['separator x position x shape<=2+2 x context x 2 names (this run)'] = total
+    # long runs: every count of bracket / brace groups up to 12 (no arity folklore in the parser)
+    for cx in CONTEXTS:
+        for nb in range(0, 13):
+            for nB in (0, 1, 9, 10, 12) if nb else range(0, 13):
+                for sep in ('', ' '):
+                    count += 1
+                    if count % nshard != idx or nb + nB == 0:
+                        continue
+                    groups = [('[', 'o%d' % k) for k in range(nb)] + [('{', 'r%d' % k) for k in range(nB)]
+                    seps = [sep] * len(groups)
+                    for trail in (' \\z', ' t'):
+                        total += 1
+                        try:
+                            case = check_case('tgt', groups, seps, trail, cx, 'long-run')
+                        except H.Violation as v:
+                            if v.kind not in seen:
+                                seen.add(v.kind)
+                                res.violations.append(v.record())
+                            continue
+                        res.case(case['src'], True, sample=case['src'], classes=['long-run:%s' % cx[0]])
+    res.exhaustive['separator x position x shape<=2+2 x context x 2 names, and runs of up to 12+12 groups (this run)'] = total
     return res
 
 
@@ -194,18 +216,19 @@ def shard_random(ctx, shard):
                     seps = seps[:k]
                     break
         trail = draw(st.sampled_from(TRAILS))
+        tol = draw(st.integers(0, 1))
         if not groups or all(s in ATTACH for s in seps) is False:
             pass
         # trailing text must not extend the name or attach
         if trail[:1].isalpha() or (name.endswith('*') and trail[:1] == '*'):
             trail = ' ' + trail
-        return name, groups, seps, trail, cx
+        return name, groups, seps, trail, cx, tol
 
     def prop(c):
-        name, groups, seps, trail, cx = c
+        name, groups, seps, trail, cx, tol = c
         if not groups and trail == '' and cx[2][:1].isalpha():
             trail = ' '
-        case = check_case(name, groups, seps, trail, cx)
+        case = check_case(name, groups, seps, trail, cx, tolerance=tol)
         labels = nontrivial(groups, seps)
         res.case(case['src'], bool(labels), sample=case['src'], classes=['ctx:' + cx[0]] + labels)
 
@@ -250,7 +273,7 @@ def shard_brackets(ctx, shard):
 
 def replay(case):
     src = case['src']
-    o = T.outcome(src, 0)
+    o = T.outcome(src, case.get('tolerance', 0))
     if case.get('sub') == 'unpartnered-bracket':
         if o[0] != 'ok':
             raise H.Violation('C09:bracket-text:parse', case, str(o[1]))
